@@ -2,13 +2,11 @@ package emem
 
 import (
 	"fmt"
-	"sort"
 
-	"github.com/sarchlab/akita/v5/hooking"
 	"github.com/sarchlab/akita/v5/mem/memcontrolprotocol"
-	"github.com/sarchlab/akita/v5/mem/memprotocol"
-	"github.com/sarchlab/akita/v5/messaging"
 
+	"verif/props/ctrlmon"
+	"verif/props/evm"
 	"verif/sim/kit"
 )
 
@@ -130,206 +128,6 @@ func genC18(r *kit.Rand, tier kit.Tier) C18Case {
 	return c
 }
 
-type c18Mon struct {
-	w                                                        *World
-	a                                                        *Asm
-	agent                                                    string
-	name                                                     string
-	support                                                  memcontrolprotocol.VerbSupport
-	reqs                                                     []memcontrolprotocol.Req // control requests in delivery order
-	rsps                                                     int                      // control responses seen so far
-	model                                                    bool                     // model state: true = paused
-	paused                                                   bool                     // after a pause/drain ack, until enable/reset ack
-	delivered                                                map[uint64]uint64        // data request ID -> seq delivered into Top
-	accepted                                                 map[uint64]bool          // retrieved from Top
-	answered                                                 map[uint64]bool          // response sent on Top
-	received                                                 map[uint64]bool          // response received by a requester
-	downOut                                                  map[uint64]bool          // downstream requests without processed response
-	preReset                                                 map[uint64]bool          // requests that may legitimately stay unanswered
-	pausedSends, drains, resets, refusals, queuedDuringPause, asyncWhilePaused int
-}
-
-type c18Hook struct {
-	m    *c18Mon
-	port string // top bottom control
-}
-
-func (h c18Hook) Func(ctx hooking.HookCtx) {
-	m := h.m
-	msg, ok := ctx.Item.(messaging.Msg)
-
-	if !ok {
-		return
-	}
-
-	m.w.Seq++
-	seq := m.w.Seq
-
-	switch h.port {
-	case "top":
-		switch ctx.Pos {
-		case messaging.HookPosPortMsgRecvd:
-			m.delivered[msg.Meta().ID] = seq
-
-			if m.paused {
-				m.queuedDuringPause++
-			}
-		case messaging.HookPosPortMsgRetrieveIncoming:
-			m.accepted[msg.Meta().ID] = true
-		case messaging.HookPosPortMsgSend:
-			id := msg.Meta().RspTo
-
-			switch msg.(type) {
-			case memprotocol.DataReadyRsp, memprotocol.WriteDoneRsp:
-				if m.paused {
-					m.w.fail("control-monitor", "C18:data-response-while-paused",
-						"%s (%s) sent a data response (RspTo=%d) after acknowledging pause/drain and before being enabled", m.name, m.agent, id)
-				}
-
-				if m.preReset[id] {
-					m.w.fail("control-monitor", "C18:response-to-pre-reset-request",
-						"%s (%s) answered request %d, which was delivered before its reset acknowledgment", m.name, m.agent, id)
-				}
-
-				m.answered[id] = true
-			}
-		}
-	case "bottom":
-		switch ctx.Pos {
-		case messaging.HookPosPortMsgSend:
-			m.downOut[msg.Meta().ID] = true
-		case messaging.HookPosPortMsgRetrieveIncoming:
-			delete(m.downOut, msg.Meta().RspTo)
-		}
-	case "control":
-		switch ctx.Pos {
-		case messaging.HookPosPortMsgRecvd:
-			if r, ok := msg.(memcontrolprotocol.Req); ok {
-				m.reqs = append(m.reqs, r)
-			}
-		case messaging.HookPosPortMsgRetrieveIncoming:
-			// The agent starts carrying out a drain or a flush: both verbs ask it to let
-			// in-flight transactions finish (drain: "let in-flight transactions finish";
-			// flush: pre-flush quiesce), so answers to those transactions are legitimate
-			// until the verb is acknowledged, even if a pause was acknowledged before.
-			if r, ok := msg.(memcontrolprotocol.Req); ok &&
-				(r.Command == memcontrolprotocol.CmdDrain || (r.Command == memcontrolprotocol.CmdFlush && m.support.Flush)) {
-				if m.paused {
-					m.asyncWhilePaused++
-				}
-
-				m.paused = false
-			}
-		case messaging.HookPosPortMsgSend:
-			if r, ok := msg.(memcontrolprotocol.Rsp); ok {
-				m.onAck(r)
-			}
-		}
-	}
-}
-
-func (m *c18Mon) onAck(rsp memcontrolprotocol.Rsp) {
-	w := m.w
-
-	if m.rsps >= len(m.reqs) {
-		w.fail("control-monitor", "C18:extra-control-response", "%s sent a control response (cmd %d, RspTo %d) with no request pending", m.name, rsp.Command, rsp.RspTo)
-		return
-	}
-
-	req := m.reqs[m.rsps]
-	m.rsps++
-
-	if rsp.RspTo != req.ID || rsp.Command != req.Command {
-		w.fail("control-monitor", "C18:control-response-order", "%s (%s): control response #%d carries command %d / RspTo %d, the #%d request was command %d / ID %d (responses must come in request order with their command and ID)",
-			m.name, m.agent, m.rsps-1, rsp.Command, rsp.RspTo, m.rsps-1, req.Command, req.ID)
-
-		return
-	}
-
-	if rsp.Dst != req.Src {
-		w.fail("control-monitor", "C18:control-response-misaddressed", "%s: control response to %s, request came from %s", m.name, rsp.Dst, req.Src)
-		return
-	}
-
-	cmd := req.Command
-
-	if !m.support.Supports(cmd) {
-		if rsp.Success || rsp.Error != memcontrolprotocol.ErrUnsupported {
-			w.fail("control-monitor", "C18:unsupported-verb-not-refused", "%s (%s): verb %d is unsupported but was answered Success=%v Error=%q", m.name, m.agent, cmd, rsp.Success, rsp.Error)
-		}
-
-		m.refusals++
-
-		return
-	}
-
-	if (cmd == memcontrolprotocol.CmdInvalidate || cmd == memcontrolprotocol.CmdFlush) && !m.model {
-		if rsp.Success || rsp.Error != memcontrolprotocol.ErrMustBePausedOrDrained {
-			w.fail("control-monitor", "C18:illegal-state-verb-not-refused", "%s (%s): verb %d while running was answered Success=%v Error=%q", m.name, m.agent, cmd, rsp.Success, rsp.Error)
-		}
-
-		m.refusals++
-
-		return
-	}
-
-	if !rsp.Success {
-		w.fail("control-monitor", "C18:supported-verb-failed", "%s (%s): supported verb %d in model state paused=%v answered Success=false Error=%q", m.name, m.agent, cmd, m.model, rsp.Error)
-		return
-	}
-
-	switch cmd {
-	case memcontrolprotocol.CmdPause:
-		m.model, m.paused = true, true
-	case memcontrolprotocol.CmdDrain:
-		m.model, m.paused = true, true
-		m.drains++
-
-		var ids []uint64
-		for id := range m.accepted {
-			ids = append(ids, id)
-		}
-
-		sort.Slice(ids, func(i, j int) bool { return ids[i] < ids[j] })
-
-		for _, id := range ids {
-			if !m.answered[id] && !m.preReset[id] {
-				w.fail("control-monitor", "C18:drain-ack-with-unanswered-request", "%s (%s) acknowledged drain while request %d, accepted earlier, has not been answered", m.name, m.agent, id)
-				return
-			}
-		}
-
-		if len(m.downOut) > 0 {
-			w.fail("control-monitor", "C18:drain-ack-with-downstream-outstanding", "%s (%s) acknowledged drain with %d downstream request(s) still awaiting or not having processed their response", m.name, m.agent, len(m.downOut))
-			return
-		}
-	case memcontrolprotocol.CmdFlush:
-		m.paused = m.model
-	case memcontrolprotocol.CmdEnable:
-		m.model, m.paused = false, false
-	case memcontrolprotocol.CmdReset:
-		m.model, m.paused = false, false
-		m.resets++
-
-		for id := range m.delivered {
-			if !m.received[id] && !m.preReset[id] {
-				m.preReset[id] = true
-
-				if !m.answered[id] {
-					// never answered by the agent so far: a later answer is a violation;
-					// a response already sent may still arrive and is accepted.
-					w.ReleaseRequest(id, true)
-				} else {
-					w.ReleaseRequest(id, false)
-					delete(m.preReset, id)
-				}
-			}
-		}
-
-		m.downOut = map[uint64]bool{}
-	}
-}
-
 // ReleaseRequest removes a request from the requesters' must-be-answered set
 // (it was inside an agent when that agent was reset).
 func (w *World) ReleaseRequest(id uint64, forget bool) {
@@ -358,11 +156,9 @@ func execC18(c C18Case, _ *kit.Env) kit.Outcome {
 	var out kit.Outcome
 
 	w := NewWorld()
-	mon := &c18Mon{
-		w: w, agent: c.Agent, support: supportOf(c.Agent),
-		delivered: map[uint64]uint64{}, accepted: map[uint64]bool{}, answered: map[uint64]bool{}, received: map[uint64]bool{},
-		downOut: map[uint64]bool{}, preReset: map[uint64]bool{},
-	}
+	mon := ctrlmon.New("", c.Agent, supportOf(c.Agent))
+	mon.Fail = w.fail
+	mon.Release = w.ReleaseRequest
 
 	hasReset, hasWBInvalidate := false, false
 
@@ -378,19 +174,18 @@ func execC18(c C18Case, _ *kit.Env) kit.Outcome {
 
 	// a reset (or an invalidate of dirty lines) legitimately loses data
 	w.NoDataCheck = hasReset || hasWBInvalidate
-	w.OnResponse = func(id uint64) { mon.received[id] = true }
+	w.OnResponse = func(id uint64) { mon.Received[id] = true }
 
 	w.OnBuilt = func(a *Asm) {
-		mon.a = a
-		mon.name = c.Steps[0].Target
+		mon.Name = c.Steps[0].Target
 		d := NewCtrlDriver(a, w, c.Steps)
 		w.Ctrl = d
 
-		a.Ports[mon.name+".Top"].AcceptHook(c18Hook{mon, "top"})
-		a.Ports[mon.name+".Control"].AcceptHook(c18Hook{mon, "control"})
+		a.Ports[mon.Name+".Top"].AcceptHook(mon.Hook("top"))
+		a.Ports[mon.Name+".Control"].AcceptHook(mon.Hook("control"))
 
-		if p, ok := a.Ports[mon.name+".Bottom"]; ok {
-			p.AcceptHook(c18Hook{mon, "bottom"})
+		if p, ok := a.Ports[mon.Name+".Bottom"]; ok {
+			p.AcceptHook(mon.Hook("down"))
 		}
 	}
 
@@ -412,13 +207,13 @@ func execC18(c C18Case, _ *kit.Env) kit.Outcome {
 	}
 
 	out.Fault("control-verb", len(w.Ctrl.Acks))
-	out.Fault("reset-with-traffic", mon.resets)
-	out.Fault("drain-with-traffic", mon.drains)
-	out.Probe("refused-verbs", mon.refusals)
-	out.Probe("drain-or-flush-started-while-paused", mon.asyncWhilePaused)
-	out.Probe("requests-delivered-while-paused", mon.queuedDuringPause)
+	out.Fault("reset-with-traffic", mon.Resets)
+	out.Fault("drain-with-traffic", mon.Drains)
+	out.Probe("refused-verbs", mon.Refusals)
+	out.Probe("drain-or-flush-started-while-paused", mon.AsyncWhilePaused)
+	out.Probe("requests-delivered-while-paused", mon.QueuedDuringPause)
 	out.Probe("agent:"+c.Agent, 1)
-	out.NonTrivial = len(w.Ctrl.Acks) >= 2 && len(mon.delivered) > 0
+	out.NonTrivial = len(w.Ctrl.Acks) >= 2 && len(mon.Delivered) > 0
 	out.Shape = fmt.Sprintf("%s|%s|%v", c.Agent, out.Shape, c.Steps)
 	out.Sample = map[string]any{"agent": c.Agent, "assembly": Describe(&c.Cfg), "script": stepNames(c.Steps), "acks": len(w.Ctrl.Acks)}
 
@@ -442,36 +237,78 @@ func stepNames(steps []CtrlStep) string {
 }
 
 func init() {
-	kit.Register(kit.Spec[C18Case]{
+	kit.Register(kit.Spec[c18Union]{
 		ID: "C18", Level: "exploration",
-		Rule: "one real memory agent (ideal / banked / DRAM controller, reorder buffer, write-back cache, write-around / write-evict / write-through cache) between 1-3 scripted requesters and (for agents with a Bottom port) the adversarial lower memory; a control driver issues 1-8 seeded verbs (all six, with address / process filters, back-to-back or awaiting acks, at seeded instants inside live traffic) and a final enable; " +
+		Rule: "one real agent of twelve kinds minus the data mover (ideal / banked / DRAM controller, reorder buffer, write-back cache, write-around / write-evict / write-through cache; TLB, MMU cache, MMU, GMMU, address translator on their translation stacks) between 1-3 scripted requesters and (for agents with a Bottom port) the adversarial lower memory; a control driver issues 1-8 seeded verbs (all six, with address / process filters, back-to-back or awaiting acks, at seeded instants inside live traffic) and a final enable; " +
 			"oracle = protocol monitor on the agent's Control / Top / Bottom ports ordered by a global sequence: one response per request with its command and ID in request order, support matrix and illegal-state refusals, no data response between a pause/drain ack and the next enable/reset ack, drain ack => every accepted request answered and nothing outstanding downstream, reset ack => no later answer to a request delivered before it, everything not reset completes after the final enable; the flat-memory oracle stays on when the script has no reset (and no invalidate of a write-back cache); " +
 			"distinct = hash of (agent, assembly, events, script); non-trivial = >= 2 acknowledgments and traffic reached the agent",
-		Assumptions: []string{"virtual-memory agents and the data mover are covered by their own assemblies (C25 / C23 runs) — not by this generator yet", "quiescence is judged from outside: accepted = retrieved from Top, answered = response sent on Top, downstream outstanding = sent on Bottom without a retrieved response"},
-		Real:        []string{"mem/idealmemcontroller", "mem/simplebankedmemory", "mem/dram", "mem/rob", "mem/cache/writeback", "mem/cache/writethroughcache", "mem/memcontrolprotocol", "noc/directconnection"},
+		Assumptions: []string{"the data mover is not covered by this generator yet", "quiescence is judged from outside: accepted = retrieved from Top, answered = response sent on Top, downstream outstanding = sent on Bottom without a retrieved response"},
+		Real:        []string{"mem/vm/tlb", "mem/vm/mmuCache", "mem/vm/mmu", "mem/vm/gmmu", "mem/vm/addresstranslator", "mem/idealmemcontroller", "mem/simplebankedmemory", "mem/dram", "mem/rob", "mem/cache/writeback", "mem/cache/writethroughcache", "mem/memcontrolprotocol", "noc/directconnection"},
 		Stubs:       []string{"requesters", "control driver", "adversarial lower memory"},
 		FaultKinds:  []string{"control-verb", "reset-with-traffic", "drain-with-traffic", "lower-response-delayed", "lower-response-reordered", "requester-stall-window"},
 		Quick:       kit.Budget{Runs: 12000, WallS: 100},
 		Thorough:    kit.Budget{Runs: 800000, WallS: 1500, CaseS: 300},
-		Gen:         genC18, Exec: execC18,
-		Shrink: func(c C18Case) []C18Case {
-			var out []C18Case
-
-			for _, l := range kit.ListShrinks(c.Steps[:len(c.Steps)-1]) {
-				q := c
-				q.Steps = append(append([]CtrlStep(nil), l...), c.Steps[len(c.Steps)-1])
-				out = append(out, q)
+		Gen: func(r *kit.Rand, t kit.Tier) c18Union {
+			if r.Chance(5, 13) { // 5 of the 13 agent kinds are virtual-memory agents
+				v := evm.GenC18VM(r, t)
+				return c18Union{VM: &v}
 			}
 
-			for _, q := range ShrinkConfig(c.Cfg) {
-				if len(q.Caches) != len(c.Cfg.Caches) || (q.Rob == nil) != (c.Cfg.Rob == nil) || q.Lower.Kind != c.Cfg.Lower.Kind {
-					continue
+			m := genC18(r, t)
+
+			return c18Union{Mem: &m}
+		},
+		Exec: func(c c18Union, env *kit.Env) kit.Outcome {
+			if c.VM != nil {
+				return evm.ExecC18VM(*c.VM, env)
+			}
+
+			return execC18(*c.Mem, env)
+		},
+		Shrink: func(c c18Union) []c18Union {
+			var out []c18Union
+
+			if c.VM != nil {
+				for _, q := range evm.ShrinkC18VM(*c.VM) {
+					q := q
+					out = append(out, c18Union{VM: &q})
 				}
 
-				out = append(out, C18Case{Agent: c.Agent, Cfg: q, Steps: c.Steps})
+				return out
+			}
+
+			for _, q := range shrinkC18(*c.Mem) {
+				q := q
+				out = append(out, c18Union{Mem: &q})
 			}
 
 			return out
 		},
 	})
+}
+
+// c18Union is either a memory agent or a virtual-memory agent run.
+type c18Union struct {
+	Mem *C18Case   `json:"mem,omitempty"`
+	VM  *evm.C18VM `json:"vm,omitempty"`
+}
+
+func shrinkC18(c C18Case) []C18Case {
+	var out []C18Case
+
+	for _, l := range kit.ListShrinks(c.Steps[:len(c.Steps)-1]) {
+		q := c
+		q.Steps = append(append([]CtrlStep(nil), l...), c.Steps[len(c.Steps)-1])
+		out = append(out, q)
+	}
+
+	for _, q := range ShrinkConfig(c.Cfg) {
+		if len(q.Caches) != len(c.Cfg.Caches) || (q.Rob == nil) != (c.Cfg.Rob == nil) || q.Lower.Kind != c.Cfg.Lower.Kind {
+			continue
+		}
+
+		out = append(out, C18Case{Agent: c.Agent, Cfg: q, Steps: c.Steps})
+	}
+
+	return out
 }
